@@ -1,12 +1,12 @@
 /-!
 # Model of the DASH option layer (C07; the registry table is reused by C16)
 
-Anchors (all in `/repo`, after the `fix:` commits b9109f8 and 53894cd):
+Anchors (all in `/repo`, after the `fix:` commits b9109f8, 53894cd, fd006ec):
 
 * `dashlive/server/options/dash_option.py:176-236`  – the static codec functions
 * `dashlive/server/options/manifest_options.py:45-62` – `ast_from_string` / `ast_to_string`
 * `dashlive/server/options/drm_options.py:73-112` – `_drm_selection_from_string` / `_to_string`
-* `dashlive/server/options/http_error.py:15-27` – `_errors_from_string`
+* `dashlive/server/options/http_error.py:27-54` – `_errors_from_string` / `_errors_to_string`
 * `dashlive/server/events/base.py:50-70,80-112` – `int_or_default`, `positive_int_or_default`, `default_to_string`
 * `dashlive/server/options/container.py:103-187` – `_convert_sub_options`, `_generate_parameters_dict`
 * `dashlive/server/options/repository.py:161-244` – `get_default_options`, `convert_options`
@@ -40,8 +40,9 @@ def lowerB (b : UInt8) : UInt8 := if isUpper b then b + 32 else b
 /-- `str.lower()` on ASCII letters (bytes ≥ 0x80 are left alone) -/
 def lower (s : Bytes) : Bytes := s.map lowerB
 
-/-- ASCII part of Python's `str.isspace` (what `int()`/`float()` strip) -/
-def isWs (b : UInt8) : Bool := b == 32 || (9 ≤ b && b ≤ 13) || (28 ≤ b && b ≤ 31)
+/-- `Py_ISSPACE`: what `int()`/`float()` strip from ASCII text (`\x1c`–`\x1f`
+are *not* stripped: `int('5\x1f', 10)` is a ValueError) -/
+def isWs (b : UInt8) : Bool := b == 32 || (9 ≤ b && b ≤ 13)
 
 def strip (s : Bytes) : Bytes := ((s.dropWhile isWs).reverse.dropWhile isWs).reverse
 
@@ -59,12 +60,6 @@ def joinWith (sep : UInt8) : List Bytes → Bytes
   | [] => []
   | [p] => p
   | p :: q :: r => p ++ sep :: joinWith sep (q :: r)
-
-/-- `sep.join(parts)` for a separator string -/
-def joinStr (sep : Bytes) : List Bytes → Bytes
-  | [] => []
-  | [p] => p
-  | p :: q :: r => p ++ sep ++ joinStr sep (q :: r)
 
 /-- `s.split(sep, 1)`: text before the first `sep`, and the rest if there is one -/
 def splitFirst (sep : UInt8) : Bytes → Bytes × Option Bytes
@@ -223,12 +218,11 @@ inductive Kind where
   | strOrNone         -- string_or_none / flatten
   | strRaw            -- default_to_string / default_to_string (events/base.py)
   | listJoin          -- list_without_none_from_string / lambda: ','.join
-  | listFlat          -- list_without_none_from_string / flatten
   | drmSelection      -- _drm_selection_from_string / _drm_selection_to_string
   | quotedUrl         -- unquoted_url_or_none_from_string / quoted_url_or_none_to_string
   | astDateTime       -- ast_from_string / ast_to_string
   | dtOrNone          -- datetime_or_none_from_string / datetime_or_none_to_string
-  | errorList         -- _errors_from_string / flatten
+  | errorList         -- _errors_from_string / _errors_to_string
   | intOrDefault (k : Int)      -- int_or_default(k) / default_to_string
   | posIntOrDefault (k : Int)   -- positive_int_or_default(k) / default_to_string
 deriving DecidableEq, Repr
@@ -344,7 +338,7 @@ def fromString (k : Kind) (s : Bytes) : Except Err (Val DT) :=
       | none => .error .valueError
   | .strOrNone => .ok (if isNoneCI s then .none else .str s)
   | .strRaw => .ok (.str s)
-  | .listJoin | .listFlat =>
+  | .listJoin =>
     .ok (.list (if isNoneCI s then [] else (splitOn 44 s).filter (fun i => !isNoneCI i)))
   | .drmSelection => (drmFromString s).map .drm
   | .quotedUrl => .ok (if isNoneCI s then .none else .str (unquotePlus s))
@@ -364,20 +358,14 @@ def fromString (k : Kind) (s : Bytes) : Except Err (Val DT) :=
     | .ok none => .ok (.int d)
     | .ok (some z) => if z < 1 then .error .valueError else .ok (.int z)
 
-def quoteStr (s : Bytes) : Bytes := 39 :: s ++ [39]
-
-/-- `str([...])` of a list of plain strings (no quotes, backslashes or
-non-printable characters: the only case the correspondence exercises) -/
-def pyReprList (l : List Bytes) : Bytes := 91 :: joinStr [44, 32] (l.map quoteStr) ++ [93]
-
-def posRepr : Pos DT → Bytes
+def posText : Pos DT → Bytes
   | .num z => intDec z
-  | .at d => quoteStr (C.render d)
-  | .nothing => ascii "None"
+  | .at d => C.render d
+  | .nothing => []
 
-/-- `str(flatten([(code, pos), …]))` -/
-def pyReprErrs (l : List (Int × Pos DT)) : Bytes :=
-  91 :: joinStr [44, 32] (l.map fun e => 40 :: intDec e.1 ++ [44, 32] ++ posRepr C e.2 ++ [41]) ++ [93]
+/-- `_errors_to_string` (http_error.py:41-54) -/
+def errText (l : List (Int × Pos DT)) : Bytes :=
+  joinWith 44 (l.map fun e => intDec e.1 ++ 61 :: posText C e.2)
 
 /-- `str(opt.to_string(value))`, `none` = Python `None` (dict_to_cgi_params
 writes it as an empty parameter).  Ill-typed combinations give `none`; they do
@@ -393,14 +381,13 @@ def toText (k : Kind) (v : Val DT) : Option Bytes :=
   | .strRaw, .str s => some s
   | .strRaw, .int z => some (intDec z)
   | .listJoin, .list l => some (joinWith 44 l)
-  | .listFlat, .list l => some (pyReprList l)
   | .drmSelection, .drm l => some (drmToString l)
   | .quotedUrl, .str s => some (quotePlus safeNone s)
   | .astDateTime, .str s => some s
   | .astDateTime, .none => some []
   | .astDateTime, .dt d => some (C.render d)
   | .dtOrNone, .dt d => some (C.render d)
-  | .errorList, .errs l => some (pyReprErrs C l)
+  | .errorList, .errs l => some (errText C l)
   | .intOrDefault _, .int z => some (intDec z)
   | .posIntOrDefault _, .int z => some (intDec z)
   | _, _ => none
